@@ -442,6 +442,16 @@ func runC18(e *Env) {
 		if bodyMethods[method] && ct.Kind == "other" && err == nil {
 			t.Fail("unsupported-type-accepted", "%s with Content-Type %q must be refused; bound %+v without error", method, ctype, got)
 		}
+		// a negative slice index in a key of the selected source can never be bound: an error, not silence
+		src := ""
+		if !bodyMethods[method] {
+			src = req.URL.RawQuery
+		} else if ct.Kind == "form" {
+			src = string(body)
+		}
+		if (strings.Contains(src, "tags[-") || strings.Contains(src, "nums[-")) && err == nil {
+			t.Fail("malformed-key-accepted", "%s, Content-Type %q: the selected source %q has a key with a negative slice index, but the binder reported success, bound %+v", method, ctype, src, got)
+		}
 	})
 
 	// ---- sequences over several binders (order must not matter), incl. body readers that fail ----
